@@ -208,7 +208,11 @@ def run_history(case, kill_at, observe, fname):
             obs.append(o)
         logs.append(ctx.log)
         ctx.log = []
+    _KEEP.append(store)      # no finaliser may run: the process ends by os._exit with the store open
     return logs, obs
+
+
+_KEEP = []
 
 
 def in_child(fn):
@@ -420,6 +424,7 @@ class C06(PropCheck):
         return os.path.join(d, 'a%d' % C06._ctr)
 
     def run_impl(self, case):
+        import elfi.store  # noqa: imported once in the parent, the forked children only patch their copy
         f1 = self.fresh_name()
         logs_obs, obs = in_child(lambda: run_history(case, None, True, f1))
         os.path.exists(f1 + '.npy') and os.remove(f1 + '.npy')
